@@ -216,9 +216,17 @@ def fmt_expect(value, spec):
             body = _strip_pad(field, want, left, zero)
             return (body == want, f"expected hexadecimal {want!r}")
         if digits is not None:
-            body = field.strip(" ") if not zero else field.lstrip("0") or "0"
-            if zero and body.startswith("."):
-                body = "0" + body
+            import re as _re
+            if not _re.fullmatch(r" *-?[0-9]+(\.[0-9]+)? *", field):
+                # a padded field is still a positional numeral: blanks
+                # outside, sign first, then digits (zeroes after the sign)
+                return False, "not a positional numeral"
+            body = field.strip(" ")
+            if zero:
+                sign = "-" if body.startswith("-") else ""
+                body = sign + (body[len(sign):].lstrip("0") or "0")
+            if zero and body.lstrip("-").startswith("."):
+                body = body.replace(".", "0.", 1)
             try:
                 x = float(body)
             except ValueError:
@@ -242,6 +250,8 @@ def _strip_pad(field, want, left, zero):
         return field
     extra = len(field) - len(want)
     if zero:
+        if want.startswith("-"):      # zeroes go between sign and digits
+            return want if field == "-" + "0" * extra + want[1:] else field
         return field[extra:] if field[:extra] == "0" * extra else field
     if left:
         return field[:len(want)] if field[len(want):] == " " * extra else field
@@ -350,17 +360,20 @@ def gen_field(ch, via):
         if w == 1:
             spec["width"] = ch.int(1, 8)
             spec["left"] = ch.bool()
-        elif w == 2 and val >= 0:
+        elif w == 2:
             spec["width"] = ch.int(1, 8)
             spec["zero"] = True
-        elif w == 3 and val >= 0:
+        elif w == 3:
             spec["hex"] = True
             if ch.bool():
                 spec["width"] = ch.int(1, 8)
                 spec["zero"] = True
     elif k == 2:
         val = ch.choice([1.2345678, 3.14159, 0.5, 2.0, 10.25, 99.999, 0.125,
-                         123.456, 1.005, 7.0])
+                         123.456, 1.005, 7.0, -3.14159, -0.5, -99.999,
+                         0.0000123, 0.00001234, -0.000002, 123456789.125,
+                         1e15, 999.999, 12, -7, 12345678901234567890,
+                         9007199254740993])
         if ch.bool(0.7):
             spec["digits"] = ch.int(0, 4)
             if ch.bool(0.4):
@@ -422,6 +435,22 @@ def part_pairs(part, n):
         if f:
             return f, {"kind": "pair", "s": s, "t": t}
     part.hyp(tapes(200), body, n)
+
+
+def part_long(part):
+    """"On all strings": the same pair checks on long strings with many
+    occurrences (the statement's laws do not depend on the length)."""
+    cases = []
+    for n in (100, 246, 247, 248, 600, 3000):
+        cases += [("a" * n, "a"), ("ab" * n, "ab"), ("a" * n, "aa"),
+                  ("<" * n, "<"), ("x|" * n, "|"), ("a" * n + "b", "b"),
+                  ("ab" * n, "ba"), (" " * n, " ")]
+    for s_, t in cases:
+        part.count()
+        part.distinct()
+        part.cls("long-pair", repr((s_[:6] + "...", len(s_), t)))
+        part.collect(check_pair(s_, t), {"kind": "pair", "s": s_, "t": t})
+    part.exhaustive = True
 
 
 def part_exhaustive(part, maxlen, shard, nshards):
@@ -506,13 +535,15 @@ def part_interp(part, n):
 
 def parts(tier, seed):
     if tier == "quick":
-        ps = [(f"pairs-{i}", part_pairs, {"n": 1000}) for i in range(5)]
+        ps = [("long", part_long, {})]
+        ps += [(f"pairs-{i}", part_pairs, {"n": 1000}) for i in range(5)]
         ps += [(f"exh-{i}", part_exhaustive,
                 {"maxlen": 2, "shard": i, "nshards": 3}) for i in range(3)]
         ps += [(f"parts-{i}", part_parts, {"n": 1500}) for i in range(3)]
         ps += [(f"interp-{i}", part_interp, {"n": 1500}) for i in range(4)]
     else:
-        ps = [(f"pairs-{i}", part_pairs, {"n": 30000}) for i in range(5)]
+        ps = [("long", part_long, {})]
+        ps += [(f"pairs-{i}", part_pairs, {"n": 30000}) for i in range(5)]
         ps += [(f"exh-{i}", part_exhaustive,
                 {"maxlen": 3, "shard": i, "nshards": 4}) for i in range(4)]
         ps += [(f"parts-{i}", part_parts, {"n": 40000}) for i in range(3)]
